@@ -12,9 +12,12 @@
  * assertion that MUST FAIL (cbmc's __CPROVER_cover statement is not usable here) */
 #define ASSERT(c, msg)
 #define COVER(c, msg) __CPROVER_assert(!(c), "COVER " msg)
+/* a witness on one of several alternative paths of a harness: at least one witness per harness must be reached */
+#define COVER_ALT(c, msg) __CPROVER_assert(!(c), "COVER ALT " msg)
 #else
 #define ASSERT(c, msg) __CPROVER_assert((c), msg)
 #define COVER(c, msg)
+#define COVER_ALT(c, msg)
 #endif
 #define ASSUME(c) __CPROVER_assume(c)
 
